@@ -183,7 +183,11 @@ pub fn run_descs(shm: &Shm, warmed: &Warmed, descs: &[Value], per_child: usize, 
         }
         // ---- parent: wait with a watchdog
         let t0 = Instant::now();
-        let limit = run_timeout * (end - pos).min(8) as u32;
+        // Wall-clock limits are generous on purpose: a run that keeps reaching scheduling points is
+        // bounded by its step cap, so only a run that makes *no* progress needs a clock - and on a
+        // machine that is thrashing (measured here: everything 20-100 times slower under load) a
+        // healthy run must not be taken for a spinning one.
+        let limit = run_timeout * 4 * (end - pos).min(8) as u32;
         let mut status: libc::c_int = 0;
         let mut timed_out: Option<String> = None;
         let mut spin = 0u32;
@@ -204,13 +208,13 @@ pub fn run_descs(shm: &Shm, warmed: &Warmed, descs: &[Value], per_child: usize, 
                 last_beat = (beat, Instant::now());
             }
             let stalled = last_beat.1.elapsed();
-            if t0.elapsed() > limit || stalled > Duration::from_secs(3) {
+            if t0.elapsed() > limit || stalled > Duration::from_secs(8) {
                 // who is stuck? running (spinning) or sleeping (blocked in the kernel on an un-hooked primitive)
                 let a = thread_states(pid);
                 std::thread::sleep(Duration::from_millis(50));
                 let b = thread_states(pid);
                 let running = a.iter().chain(b.iter()).any(|&c| c == 'R');
-                if running && t0.elapsed() <= limit && stalled < Duration::from_secs(12) {
+                if running && t0.elapsed() <= limit && stalled < Duration::from_secs(30) {
                     // busy but not at a scheduling point (a long compilation, single-stepping): give it time
                     std::thread::sleep(Duration::from_millis(20));
                     continue;
@@ -275,9 +279,9 @@ pub fn run_descs(shm: &Shm, warmed: &Warmed, descs: &[Value], per_child: usize, 
         let mut harness_error = None;
         if let Some(kind) = timed_out {
             if kind == "spinning" {
-                r.violations.push(("non-termination".into(), "run made no progress for 12 s (or exceeded its wall budget) while a thread of the run was still executing (not blocked)".to_string()));
+                r.violations.push(("non-termination".into(), "run made no progress for 30 s (or exceeded its wall budget) while a thread of the run was still executing (not blocked)".to_string()));
             } else {
-                harness_error = Some("simulator lost control: the run made no progress for 3 s and every thread of it is sleeping (blocked on a primitive the seam does not cover?)".to_string());
+                harness_error = Some("simulator lost control: the run made no progress for 8 s and every thread of it is sleeping (blocked on a primitive the seam does not cover?)".to_string());
             }
         } else if let Some((c, d)) = fatal_line {
             r.violations.push((c, d));
